@@ -167,11 +167,14 @@ def run_check(prop, tier, base, mod, workers=None, n_runs=None, deadline=None):
         results, errors, exhausted = collect(procs, hard)
         agg = {}
         nontrivial = set()
+        sets = {}
         n_viol = 0
         viols = []
         for r in results:
             merge_counts(agg, r['stats'])
             nontrivial.update(r.get('nontrivial', ()))
+            for name, vals in (r.get('sets') or {}).items():
+                sets.setdefault(name, set()).update(vals)
             n_viol += r.get('n_violations', 0)
             for v in r.get('violations', ()):
                 viols.append((r['i'], v))
@@ -232,7 +235,7 @@ def run_check(prop, tier, base, mod, workers=None, n_runs=None, deadline=None):
         if results:
             ev = evidence.build(prop, tier, base, mod, results, agg, sorted(nontrivial), samples,
                                 wall, wall_runs, workers, len(out_lines), exhausted, params,
-                                known_hits)
+                                known_hits, sets=sets)
             problems = evidence.validate(ev)
             if problems:
                 errors.append('evidence not schema-valid: %s' % problems)
